@@ -65,6 +65,7 @@ def check(repo: Repo, rep: Report) -> None:
                 rep.ob("V1-current-value", m, f"{m.name}: {short(n_)}", m.name in ("__init__", "_on_next_core", "dispose"),
                        f"`self.value` is written in {m.name}: the current value no longer is 'the last on_next value or the initial value'")
     SC.rule_dispose(rep, cls)
+    SC.rule_subscribe_atomic(rep, cls)
     SC.rule_exception_identity(rep, repo.fn(B, "BehaviorSubject._subscribe_core"))
     # error / completion cores are inherited (no override that could deliver a value)
     for name in ("_on_error_core", "_on_completed_core", "on_next", "on_error", "on_completed"):
